@@ -5,6 +5,7 @@ use crate::report::Report;
 
 pub mod cli;
 pub mod common;
+pub mod c01;
 pub mod c02;
 pub mod c03;
 pub mod c04;
@@ -27,6 +28,7 @@ pub type MonitorFn = fn(&Ctx) -> Vec<Report>;
 
 pub fn registry() -> Vec<(&'static str, MonitorFn)> {
     vec![
+        ("C01", c01::run as MonitorFn),
         ("C02", c02::run as MonitorFn),
         ("C03", c03::run as MonitorFn),
         ("C04", c04::run as MonitorFn),
